@@ -7,6 +7,7 @@ Oracle: the TVD-region predicates themselves, recomputed from the arguments.
 import numpy as np
 from hypothesis import strategies as st
 
+from vf import cases
 from vf.runner import SubCheck, Violation, require, target
 
 LIMITERS = ["minmod", "vanalbada", "vanleer", "superbee"]
@@ -83,8 +84,19 @@ def strat(tier):
 
 
 # ---------------------------------------------------------------- predicate
+def _muscl_was_used(limname):
+    """the limiters are plain functions of two slopes: they answer the same whether or not a MUSCL reconstruction (with any limiter) has just worked on steep data"""
+    md = dict(name="convection", a=1.0)
+    model = cases.build_model(md)
+    mesh = cases.build_mesh(dict(kind="uni", n=40, length=1.0, x0=0.0))
+    for ln in (limname, "minmod"):
+        disc = cases.build_disc(model, mesh, dict(name="muscl", limiter=ln), None, {"type": "per"}, {"type": "per"})
+        disc.rhs(cases.build_field(model, mesh, [np.where(np.arange(40) < 20, 700.0, -300.0)]))
+
+
 def check(case):
     lim = _lim(case["limiter"])
+    _muscl_was_used(case["limiter"])
     A = np.array([p[0] for p in case["pairs"]], dtype=float)
     B = np.array([p[1] for p in case["pairs"]], dtype=float)
     lam = float(case["lam"])
